@@ -39,7 +39,8 @@ RULE = ("one scenario = 1-5 stations (continuous or finite-rate EVSEs, shuffled 
         "feasibility or fully-charged decision is within 1e-6 / 1e-9 of its threshold are skipped as float-ambiguous")
 ASSUMPTIONS = ["exact rational arithmetic in the model; values compared to 1e-9 relative",
                "sessions at one station do not overlap (otherwise plugin raises StationOccupiedError) and arrival < departure",
-               "sorted schedulers are not modelled: their emitted schedules are recorded and replayed as a scripted oracle; "
+               "in the correspondence the sorted schedulers' emitted schedules are recorded and replayed as a scripted oracle "
+               "(their equivariance is the theorem C10_sorted_equivariant about Model/Sorted.v, tied to the code by C07/C08); "
                "their own order-independence is observed on the paired real runs (monitor), with distinct sort keys",
                "the event queue is modelled by its contract (due events sorted by timestamp and precedence, C11)"]
 TRUSTED_EXTRA = ["harness/c10.py scenario builder (applies the same permutation to the real run and to the model input)"]
